@@ -45,6 +45,28 @@ func c07(r *Report) {
 		if hcr := r.Use("", "Proxy.handleConnectRequest"); hcr != nil {
 			tunnelEOSRule(r, hcr, tunnelCopiers(hcr))
 		}
+		// an HTTP/2 tunnel's handler finishes only when both relay directions have: the relay call
+		// joins its goroutines before it returns (a return on the stop signal alone lets Close return
+		// while a direction is still inside a stream processor)
+		if px := r.W.Fn("h2", "Config.Proxy"); px != nil && px.Blocks != nil {
+			r.Touch(px)
+			g := G(px)
+			isWait := func(i ssa.Instruction) bool { _, y := isCall(i, "(*sync.WaitGroup).Wait"); return y }
+			ngo, okJoin := 0, true
+			for _, in := range instrs(px) {
+				if gs, isGo := in.(*ssa.Go); isGo {
+					fn := goTarget(gs)
+					if fn == nil || len(calls(fn, "(*M/h2.relay).relayFrames")) == 0 {
+						continue
+					}
+					ngo++
+					if p := g.PathTo([]ssa.Instruction{gs}, false, isWait, isReturn); p != nil {
+						okJoin = false
+					}
+				}
+			}
+			r.Decide("path", "(*M/h2.Config).Proxy returns only after both relay goroutines were joined", ngo == 2 && okJoin, "WaitGroup.Wait lies on every path from each go statement to a return", "the relay call can return while one of its directions is still running: the connection handler finishes, Proxy.Close returns, and a stream processor is still being called", px.Pos())
+		}
 		for _, f := range w.Funcs("") {
 			var st map[ssa.Instruction]lockset
 			for _, c := range calls(f) {
